@@ -16,6 +16,10 @@ def load_known():
 
 
 def belongs(o, unit, pid):
+    # a unit can underlie other properties as a whole (the queues under C03 / C08: 'exactly once, in order, intact' IS their
+    # FIFO contract): then every obligation of the unit also decides those properties
+    if pid in unit.get('underlies', ()) and not o.get('known'):     # an obligation isolating a known finding stays with the properties it names
+        return True
     if o.get('tag'):
         return pid in o['tag'].split(',')
     return unit['primary'] == pid
@@ -24,7 +28,7 @@ def belongs(o, unit, pid):
 def decide(pid, tier, units, scratch, run_unit):
     t0 = time.time()
     seed = int(os.environ.get('VERIF_SEED', '0') or 0)
-    sel = [u for u in units if pid in u['props']]
+    sel = [u for u in units if pid in u['props'] or pid in u.get('underlies', ())]
     if not sel:
         print('no units serve %s (not claimed)' % pid)
         return 2
